@@ -5,6 +5,9 @@ import (
 	"strings"
 	"sync"
 	"time"
+
+	"github.com/olive-io/bpmn/schema"
+	bpmn "github.com/olive-io/bpmn/v2"
 )
 
 func init() { commands["c06"] = runC06 }
@@ -197,6 +200,41 @@ func runC06(env *Env) {
 				}
 			}
 		}
+	}
+	// simultaneous delivery: every alternative's token runs the gateway's action transformer at the same
+	// moment (hook VerifEventGatewayRace, build tag verif): exactly one may continue, round after round
+	for _, n := range []int{2, 3} {
+		rounds := 4000
+		if env.Thorough() {
+			rounds = 60000
+		}
+		cs := fmt.Sprintf("%d alternatives triggered at the same moment, %d rounds", n, rounds)
+		env.Current(cs)
+		p, extra := c06Prog(n)
+		defs, err := ParseDefs(p.XML(extra))
+		must(err)
+		in, err := StartInst(defs, InstOpt{NoStart: true})
+		must(err)
+		var gw schema.FlowNodeInterface
+		if el, found := defs.FindBy(schema.ExactId("EG")); found {
+			gw, _ = el.(schema.FlowNodeInterface)
+		}
+		node, found := in.P.FlowNodeMapping().ResolveElementToFlowNode(gw)
+		if !found {
+			rep.Violate("C06-one-winner", cs, "event-based gateway node not found")
+			in.Close()
+			continue
+		}
+		bad, err := bpmn.VerifEventGatewayRace(in.Ctx, node, rounds)
+		rep.Evaluations++
+		rep.Nontrivial++
+		rep.Count("simultaneous")
+		if err != nil {
+			rep.Violate("C06-one-winner", cs, "hook: "+err.Error())
+		} else if bad > 0 {
+			rep.Violate("C06-one-winner", cs, fmt.Sprintf("in %d of %d rounds the number of alternatives that continued was not one", bad, rounds))
+		}
+		in.Close()
 	}
 	env.WriteCases(rep, "", "Corr.C06corr", "nat * list nat * nat * list nat * list nat", items, "c06_mismatches")
 	env.WriteReport(rep)
